@@ -41,6 +41,7 @@ BOUNDS = {
     "quick": {"max_rows": 2, "D": [1, 2], "sweeps": "3, then reset_model() and 1 more", "deviation_bound": 0, "deviation_datasets": 0,
               "whole_run_scripts": "default pattern; every gamma draw x0.002; every gamma draw x500 (precisions driven into both clipping bounds); far state: the second sweep started from an intercept of +14 / -14 (fitted values beyond +-10, a state a chain reaches only rarely)",
               "sparse_large_probes": "4097 and 5000 observations, D=2, 3 sweeps: fitted values vs parameters after every block, export",
+              "failing_draws": "24 datasets (thorough 120), D=2: every multivariate-normal draw of the run in turn replaced by a LinAlgError",
               "incremental": "every dataset also with its observations handed over in two add_observations calls (every split point), default answer pattern"},
     "thorough": {"max_rows": 3, "D": [1, 2, 3], "sweeps": "3, then reset_model() and 1 more", "deviation_bound": 1, "deviation_datasets": "all datasets with <= 2 rows, D=2",
                  "whole_run_scripts": "as quick", "sparse_large_probes": "as quick", "incremental": "as quick"},
@@ -144,7 +145,9 @@ class Recorder:
         self.records = []
         self.n_calls = 0
         self.k = 0
-        self.deviation = deviation
+        self.deviation = deviation if not (deviation and deviation[0] == "mvnfail") else None
+        self.fail_mvn = deviation[1] if deviation and deviation[0] == "mvnfail" else None  # ordinal of the mvn draw that fails
+        self.n_mvn = 0
         self.errors = []
 
     def snapshot(self):
@@ -194,6 +197,13 @@ class Recorder:
         D = np.asarray(Q).shape[0]
         z = self._answers((D,), z_default, "z")
         rec["z"] = z.copy()
+        ordinal = self.n_mvn
+        self.n_mvn += 1
+        if self.fail_mvn is not None and ordinal == self.fail_mvn:
+            # environment answer "this draw fails numerically" (what a precision matrix that is not positive definite in float32 gives)
+            rec["failed"] = "injected"
+            rec["injected"] = True
+            raise np.linalg.LinAlgError("injected: matrix is not positive definite")
         try:
             val = real(Q, mu=mu, mu_part=mu_part, chol_factor=chol_factor, rng=_FixedZ(z), **kw)
         except Exception as exc:
@@ -267,6 +277,8 @@ def check_mvn(rec, Q, b, what, out):
     if rec["kind"] != "mvn":
         out.append((what, f"{what}: expected a multivariate normal draw, got {rec['kind']}"))
         return
+    if rec.get("injected"):
+        return  # (a failure the harness injected: no verdict on this draw; the clauses about the state after the block still apply)
     if rec["failed"]:
         out.append((what, f"{what}: the draw failed ({rec['failed']}) and the block kept its old value"))
         return
@@ -668,6 +680,12 @@ def plan(tier, seed):
         small = [i for i, ds in enumerate(datasets(b["max_rows"])) if len(ds) <= 2]
         for c in range(0, len(small), 4):
             items.append({"kind": "deviate", "D": 2, "ids": small[c:c + 4]})
+    # environment answer "a multivariate-normal draw fails": every single draw of the run in turn (the sampler skips the update or
+    # lets the error propagate; if it carries on, fitted values and export must still agree with the parameters)
+    with_rows = [i for i, ds in enumerate(dss) if len(ds) >= 1]
+    pick = with_rows[:: max(1, len(with_rows) // (24 if tier == "quick" else 120))]
+    for c in range(0, len(pick), 6):
+        items.append({"kind": "mvnfail", "D": 2, "ids": pick[c:c + 6]})
     items.append({"kind": "mvn"})
     for n in LARGE_PROBES:
         items.append({"kind": "large", "n": n, "D": 2})
@@ -693,9 +711,19 @@ def run_one(col, ds, D, deviation, sweeps, split=None, inject=None):
         dv = None
     elif deviation[0] == "all":
         dv = GLOBAL_SCRIPTS[deviation[1]]
+    elif deviation[0] == "mvnfail":
+        dv = ("mvnfail", deviation[1])
     else:
         dv = (deviation[0], DEV_VALUES[deviation[1]])
-    res, n_blocks, n_draws, rec, mvns = execute(ds, D, dv, sweeps, split=split, inject=inject)
+    try:
+        res, n_blocks, n_draws, rec, mvns = execute(ds, D, dv, sweeps, split=split, inject=inject)
+    except np.linalg.LinAlgError as exc:
+        if deviation is not None and deviation[0] == "mvnfail" and "injected" in str(exc):
+            # the sampler lets the failure propagate: nothing further is promised about this model object
+            col.refused += 1
+            col.outcome("mvnfail-propagated", tuple(ds), D, deviation[1])
+            return None, []
+        raise
     col.evaluations += 1
     col.states += n_blocks + 1
     col.transitions += n_blocks
@@ -763,6 +791,13 @@ def run_item(item, col, tier):
         col.count("mvn_pairs_checked", len(seen_q[:40]))
         for sig, msg in out:
             col.violation(f"C08|{sig}", msg, {"mvn_family": True})
+    elif item["kind"] == "mvnfail":
+        for i in item["ids"]:
+            ds = dss[i]
+            res, n_blocks, n_draws, rec, _ = execute(ds, item["D"], None, sweeps)
+            for k in range(rec.n_mvn):
+                run_one(col, ds, item["D"], ("mvnfail", k), sweeps)
+            col.count("mvn_draws_failed_in_turn", rec.n_mvn)
     else:
         for i in item["ids"]:
             ds = dss[i]
